@@ -101,6 +101,7 @@ int main(int argc, char **argv)
 		else if (has(viol, "Rneg") && has(viol, "Cneg")) eq = BOTH;
 		else if (has(viol, "Rneg")) eq = ROW;
 		else if (has(viol, "Cneg")) eq = COL;
+		if (has(viol, "eqboth") && !has(viol, "equed")) eq = BOTH;     /* both arrays are tested, one of them is bad */
 		if (has(viol, "Rneg")) R[1] = -1;
 		if (has(viol, "Cneg")) C[2] = 0;
 	    } else { if (has(viol, "trans")) { tr = (trans_t) 9; trs[0] = 'Q'; } }
